@@ -174,6 +174,27 @@ def check(repo: Repo, R) -> None:
           and any(_under(c, "Concat") for c, _b in pat.find(f"$P.concat.CopyFrom(export_concat({s}))", fct.node)))
     R.check(ok, rule, key_of(fct), fct.site, f"connection targets name the connected signal / slice / concat itself: {ok}", why="connections name another signal")
 
+    # the ports an instance is checked against (`.ports`) and the ports the package declares for its target (`.port_list`)
+    # are one list: the name-keyed view is built from the live field whenever it is asked for
+    n_views = 0
+    for rel_, cls_ in ((F_EXTMOD, "ExternalModule"), (F_PRIMS, "Primitive")):
+        ci_ = repo.cls(rel_, cls_)
+        pm = ci_.methods.get("ports")
+        if pm is None:
+            raise AnalysisError(f"anchor-vanished: {rel_}::{cls_}.ports")
+        n_views += 1
+        reads = {x.attr for x in ast.walk(pm.node) if isinstance(x, ast.Attribute) and isinstance(x.value, ast.Name) and x.value.id == "self"}
+        kept = [ast.unparse(r_.value) for r_ in shared.returns_of(pm.node) if isinstance(shared.prov(pm.node, r_.value), ast.Attribute)]
+        stored = [ast.unparse(t) for n_ in au.walk_no_nested(pm.node) if isinstance(n_, (ast.Assign, ast.AugAssign, ast.AnnAssign)) for t in (n_.targets if isinstance(n_, ast.Assign) else [n_.target]) if isinstance(t, (ast.Attribute, ast.Subscript))]
+        ok = reads == {"port_list"} and not kept and not stored
+        R.check(ok, rule, key_of(pm, "live-view"), pm.site,
+                f"{cls_}.ports is built from the live `port_list` on every access" if ok else f"{cls_}.ports hands out {kept or sorted(reads)}" + (f", stores {stored}" if stored else "") + " — a remembered view of `port_list`",
+                why="after `port_list` changes, instances are checked against the remembered ports while the package declares the current ones: an instance that leaves the new port unconnected is accepted and exported")
+    for rel_, cls_, via in ((F_EXTMOD, "ExternalModuleCall", "module"), (F_PRIMS, "PrimitiveCall", "prim")):
+        pm = repo.cls(rel_, cls_).methods.get("ports")
+        ok = pm is not None and [shared.prov_text(pm.node, r_.value) for r_ in shared.returns_of(pm.node)] == [f"self.{via}.ports"]
+        R.check(ok, rule, key_of(pm, "live-view") if pm else f"{rel_}::{cls_}.ports", pm.site if pm else rel_, f"{cls_}.ports is its {via}'s: {ok}", why="a call is checked against other ports than its target declares")
+
     # ---- 6 per-call state
     rule = "C06.6-exporter-state-per-call"
     sf = repo.file(F_EXPORT)
